@@ -1206,7 +1206,12 @@ class NDCube(NDCubeBase):
 
         # Reshape array so odd dimensions represent pixels to be binned
         # then apply function over those axes.
-        data, sanitized_mask = _create_masked_array_for_rebinning(self.data, self.mask,
+        # A mask that applies to the cube as a whole may also be a numpy boolean scalar
+        # (e.g. numpy.ma.nomask) or a 0-d array: it stands for the Python bool.
+        mask = self.mask
+        if mask is not None and not isinstance(mask, bool) and np.ndim(mask) == 0:
+            mask = bool(mask)
+        data, sanitized_mask = _create_masked_array_for_rebinning(self.data, mask,
                                                                   operation_ignores_mask)
         reshape = np.empty(len(data_shape) + len(bin_shape), dtype=int)
         new_shape = (data_shape / bin_shape).astype(int)
@@ -1220,10 +1225,10 @@ class NDCube(NDCubeBase):
             new_data = new_data.data
         if handle_mask is None:
             new_mask = None
-        elif isinstance(self.mask, (type(None), bool)):  # Preserve original mask type.
+        elif isinstance(mask, (type(None), bool)):  # Preserve original mask type.
             new_mask = self.mask
         else:
-            reshaped_mask = self.mask.reshape(reshape)
+            reshaped_mask = mask.reshape(reshape)
             new_mask = handle_mask(reshaped_mask, axis=operation_axes)
 
         # Propagate uncertainties if propagate_uncertainties kwarg set.
@@ -1237,9 +1242,9 @@ class NDCube(NDCubeBase):
                               "To create an uncertainty that can propagate, please see "
                               "https://docs.astropy.org/en/stable/uncertainty/index.html")
             elif (not operation_ignores_mask
-                  and (self.mask is True or (self.mask is not None
-                                             and not isinstance(self.mask, bool)
-                                             and self.mask.all()))):
+                  and (mask is True or (mask is not None
+                                        and not isinstance(mask, bool)
+                                        and mask.all()))):
                 warn_user("Uncertainties cannot be propagated as all values are masked and "
                               "operation_ignores_mask is False.")
             else:
@@ -1261,7 +1266,7 @@ class NDCube(NDCubeBase):
                 flat_uncertainty = flat_uncertainty.reshape(flat_shape)
                 flat_uncertainty = type(self.uncertainty)(flat_uncertainty)
                 if sanitized_mask is not None:
-                    reshaped_mask = self.mask.reshape(tuple(reshape))
+                    reshaped_mask = mask.reshape(tuple(reshape))
                     flat_mask = np.moveaxis(reshaped_mask, dummy_axes, tuple(range(naxes)))
                     flat_mask = flat_mask.reshape(flat_shape)
                 else:
